@@ -76,7 +76,9 @@ pub async fn run_acb_app_to_delta_models(
             &mut err_printer,
         )?;
 
-        load_tx_rates(&mut csv_txs, &mut rate_loader).await?;
+        load_tx_rates(&mut csv_txs, &mut rate_loader)
+            .await
+            .map_err(|e| format!("{e} (while loading {csv_desc})"))?;
 
         let mut txs = Vec::<Tx>::with_capacity(csv_txs.len());
         for csv_tx in csv_txs {
